@@ -156,6 +156,14 @@ func (x *Exec) RegisterStdModels() {
 		s.Assume(Ge(r, IntLit(0)))
 		return S(r), true
 	}
+	// errsLen(e): number of leaf errors multierr.Errors(e) returns (A-leaf:
+	// task errors are leaves)
+	x.Ctx.DeclareFunc("errsLen", []string{SInt}, SInt)
+	x.Ctx.AddAxiom(&Axiom{Name: "errsLen", Triggers: []string{"errsLen"}, Needs: []string{"multierr.Append"},
+		Body: "(and (= (errsLen 0) 0) (forall ((a Int) (b Int)) (! (=> (not (= b 0)) (= (errsLen (multierr.Append a b)) (+ (errsLen a) 1))) :pattern ((multierr.Append a b)))))"})
+	x.SpecFuncs["errsLen"] = func(e *Env, a []Value) Value {
+		return S(App("errsLen", SInt, e.toTerm(a[0])))
+	}
 	x.SpecFuncs["multierrAppend"] = func(e *Env, a []Value) Value {
 		return S(App("multierr.Append", SInt, e.toTerm(a[0]), e.toTerm(a[1])))
 	}
